@@ -1,5 +1,8 @@
 """Worker for C16 (packers): builds a pysnark.pack schema, packs and unpacks a structured value given as plain
-ints or as secrets, and reports bits, lengths, round-trip result and exception classes.  Protocol: `K|id|bl|<json>`."""
+ints or as secrets, and reports bits, lengths, round-trip result and exception classes.  Protocol: `K|id|bl|<json>`.
+Mode `unpack-raw`: `unpack` alone, applied to a caller-supplied list of bits (raw secrets `PrivVal(b)`, secrets of the
+boolean type, or plain ints) over the field `p`, with error checking on or off; reports the result, the emitted system and
+the recorded witness (the range check of `PackIntMod.unpack` is the subject)."""
 import sys, os, json, traceback
 sys.path.insert(0, os.path.dirname(os.path.abspath(__file__)))
 import worker as W
@@ -36,11 +39,40 @@ def kinds(x):
     return type(x).__name__
 
 
+def mkbit(t):
+    k, v = t.split(":")
+    return PrivVal(int(v)) if k == "L" else PrivValBool(int(v)) if k == "B" else int(v)
+
+
+def unpack_raw(f, j):
+    """unpack alone on given bits; protocol mirror of `K|id|bl|schema|bits|U|p|ign` in Driver/ProtoStruct.lean"""
+    import canon
+    p = j.get("p", W.DEFAULT_P)
+    W.reset({"p": p, "bl": int(f[2]), "ign": j.get("ign", 0)})
+    pk = build(j["schema"])
+    out = {"bitlen": pk.bitlen()}
+    bits = [mkbit(t) for t in j["bits"]]
+    out["ninputs"] = len(B.privvals)
+    try:
+        back = pk.unpack(bits, 0)
+        out["unpack"] = "ok"; out["back"] = plain(back); out["backstr"] = canon.val_str(back, p, W.CLASSES)
+    except Exception as e:
+        out["unpack"] = type(e).__name__
+    out["cons"] = [f"{canon.canon_lc(a, p)} @ {canon.canon_lc(b, p)} = {canon.canon_lc(c, p)}" for (a, b, c) in B.constraints]
+    out["priv"] = [v % p for v in B.privvals]
+    out["unsat"] = [i for i, (a, b, c) in enumerate(B.constraints) if (W.ev(a, p) * W.ev(b, p) - W.ev(c, p)) % p != 0][:3]
+    W.reset({"p": W.DEFAULT_P, "bl": 16})
+    return f"{f[1]}|" + json.dumps(out)
+
+
 def main():
     for line in sys.stdin:
         f = line.rstrip("\n").split("|", 3)
         try:
             j = json.loads(f[3])
+            if j.get("mode") == "unpack-raw":
+                sys.stdout.write(unpack_raw(f, j) + "\n"); sys.stdout.flush()
+                continue
             W.reset({"p": W.DEFAULT_P, "bl": int(f[2])})
             pk = build(j["schema"])
             out = {"bitlen": pk.bitlen()}
